@@ -166,11 +166,17 @@ StripN(t) ==
 \* canonical form used only for the *completeness* comparison of ambiguity='explicit': alternatives of a rule that
 \* expand to the same empty symbol sequence are one production, of which lark keeps the first spelling (its
 \* placeholder layout and its alias): Nones are dropped and a node without children loses its label
-RECURSIVE Canon(_)
-Canon(t) ==
+\* X: names of ?rules.  Whether a ?rule node is inlined depends on the number of its children, Nones included - so the
+\* spelling of an unmatched optional decides between  z(None, c)  and  c ; after dropping the Nones a ?rule node
+\* with one child left is replaced by that child
+RECURSIVE CanonX(_, _)
+CanonX(t, X) ==
   IF t[1] = "N" THEN <<"R", "", 0, <<>>>>
   ELSE IF t[1] # "R" THEN t
-  ELSE LET cs == [q \in DOMAIN t[4] |-> Canon(t[4][q])]
+  ELSE LET cs == [q \in DOMAIN t[4] |-> CanonX(t[4][q], X)]
            ks == SelectSeq(cs, LAMBDA c : c # <<"R", "", 0, <<>>>>)      \* Nones and empty nodes are dropped
-       IN IF ks = <<>> THEN <<"R", "", 0, <<>>>> ELSE <<"R", t[2], 0, ks>>
+       IN IF ks = <<>> THEN <<"R", "", 0, <<>>>>
+          ELSE IF Len(ks) = 1 /\ t[2] \in X THEN ks[1]
+          ELSE <<"R", t[2], 0, ks>>
+Canon(t) == CanonX(t, {})
 =============================================================================
